@@ -84,6 +84,7 @@ func buildOverlay(verifDir, repoDir string, subs []string) (*setup, map[string][
 }
 
 type nativeVector struct {
+	Group   int               `json:"group"`
 	ID      int               `json:"id"`
 	Harness string            `json:"harness"`
 	Vars    map[string]uint64 `json:"vars"`
@@ -179,6 +180,9 @@ func (s *setup) runNative(sub string, harnesses []string, vecs []nativeVector, w
 		run.Dir = target
 		run.Env = append(os.Environ(), "VERIF_VECTORS="+vecPath, "VERIF_OUT="+outPath,
 			"VERIF_VEC_TIMEOUT="+timeout.String())
+		if race {
+			run.Env = append(run.Env, "GORACE=halt_on_error=1")
+		}
 		var stderr bytes.Buffer
 		run.Stdout = &stderr
 		run.Stderr = &stderr
